@@ -135,7 +135,7 @@ func c13Gen(t *tape.Tape, ownProp func(string) bool) (prelude, recv string, step
 		s1, s2, s3 := next(), next(), next()
 		// the methods' results depend on every argument they receive, so a dropped or
 		// reordered argument shows in the value
-		prelude = fmt.Sprintf("o := {ma: m{|a| S(%d); .bear({la: a})}, mb: m{|a, k: 0, j: 5| S(%d); .bear({lb: [a, k, j, \\_]})}, mi: m{S(%d); 7}, v: 3}\n", s1, s2, s3)
+		prelude = fmt.Sprintf("o := {ma: m{|a| S(%d); .bear({la: a})}, mb: m{|a, k: 0, j: 5, _p: 2| S(%d); .bear({lb: [a, k, j, _p, \\_]})}, mi: m{S(%d); 7}, v: 3}\n", s1, s2, s3)
 		recv = "o"
 		for i := 0; i < k; i++ {
 			last := i == k-1
@@ -143,7 +143,12 @@ func c13Gen(t *tape.Tape, ownProp func(string) bool) (prelude, recv string, step
 			case 0:
 				steps = append(steps, c13Step{"method", fmt.Sprintf(".ma(%d)", t.Intn(9)), s1})
 			case 1:
-				switch t.Intn(3) {
+				switch t.Intn(5) {
+				case 3:
+					// a keyword whose name starts with `_` (a private name) is a keyword like any other
+					steps = append(steps, c13Step{"method-kw", fmt.Sprintf(".mb(%d, _p: %d, k: %d)", t.Intn(9), t.Intn(9), t.Intn(9)), s2})
+				case 4:
+					steps = append(steps, c13Step{"method-kw", fmt.Sprintf(".mb(%d, **{_p: %d, j: %d})", t.Intn(9), t.Intn(9), t.Intn(9)), s2})
 				case 0:
 					steps = append(steps, c13Step{"method-kw", fmt.Sprintf(".mb(%d, k: %d)", t.Intn(9), t.Intn(9)), s2})
 				case 1:
